@@ -249,9 +249,11 @@ PROPS = {
              'classifier wrapper vs class frequencies; non-trivial = result has a sum node; distinct = distinct consultation script',
     ),    'C04': dict(
         module='c04',
-        modules=['DeeprobModel.Props.C04', 'DeeprobModel.Props.C03', 'DeeprobModel.Props.Clt'],
+        modules=['DeeprobModel.Props.C04', 'DeeprobModel.Props.C04Xpc', 'DeeprobModel.Props.C03', 'DeeprobModel.Props.Clt'],
         theorems=['Deeprob.Learn.learn_inv', 'Deeprob.Learn.learn_inv_step', 'Deeprob.Learn.learn_final_valid', 'Deeprob.checkSpn_accept_iff',
-                  'Deeprob.checkSpn_sound', 'Deeprob.Clt.pc_structured', 'Deeprob.Clt.get_scopes_spec'],
+                  'Deeprob.checkSpn_sound', 'Deeprob.Clt.pc_structured', 'Deeprob.Clt.get_scopes_spec',
+                  'Deeprob.buildXpc_valid', 'Deeprob.buildXpc_scope', 'Deeprob.buildXpc_normW', 'Deeprob.buildXpc_normalised',
+                  'Deeprob.expc_valid', 'Deeprob.xpc_sd_laminar', 'Deeprob.expc_sd_laminar'],
         fragments=['learnspn.requeue'],
         rule='(i) LearnSPN under scripted splitters (every oracle behaviour); (ii) built-in row splitters x column splitters x leaf '
              'learners (mle, binary-clt with and without conversion) on binary data with constant / duplicated / near-constant columns '
@@ -260,9 +262,9 @@ PROPS = {
              'circuit: validator (independent spec + model checkSpn), root scope, positive normalised weights, leaf domains, exact total '
              'mass through the model, exhaustive mass on small binary domains, laminar product scopes when sd is requested; learner '
              'exceptions are not returns and are only counted; non-trivial = every returned circuit; distinct = distinct configuration',
-        level_note='The queue machine theorems (learn_inv, learn_final_valid) cover LearnSPN for every splitter behaviour; XPC construction is '
-                   'not modelled: its results are decided by the verified validator (checkSpn_accept_iff, checkSpn_sound) run on every '
-                   'returned circuit, i.e. translation-validation style for that learner. Trusted as elsewhere.',
+        level_note='The queue machine theorems (learn_inv, learn_final_valid) cover LearnSPN for every splitter behaviour; build_xpc is '
+                   'modelled (buildXpc_valid, xpc_sd_laminar: for every partition tree satisfying PartInv / the sd discipline) with the random '
+                   'partitioning as an oracle whose actual output is exported and checked (partInvB, sdInvB) on every run. Trusted as elsewhere.',
     ),    'C08': dict(
         module='c08',
         modules=['DeeprobModel.Props.C08', 'DeeprobModel.Props.C08WellOrdered', 'DeeprobModel.Props.C06', 'DeeprobModel.Props.Topo'],
